@@ -126,9 +126,21 @@ def _pointwise(case, model):
     fs = case
     u, L, i, j, amp, size = make_flow(fs)
     x = point_of(fs, i, j, size)
-    Lx = np.asarray(sut(L, np.nan, x), dtype=float)
-    ux = np.asarray(sut(u, np.nan, x), dtype=float)
+    x_in = x.copy()
+    L_first = sut(L, np.nan, x)
+    u_first = sut(u, np.nan, x)
+    Lx = np.array(L_first, dtype=float)
+    ux = np.array(u_first, dtype=float)
+    require(np.array_equal(x, x_in), "the flow callables modified the position they were given")
     require(Lx.shape == (3, 3) and ux.shape == (3,), f"shapes {Lx.shape}, {ux.shape}")
+    # pure functions of the position: the same point gives the same answer after calls
+    # elsewhere, and answers handed out earlier are not overwritten by later calls
+    x_other = 0.9 * x  # stays inside every flow's domain
+    x_other[i] += 0.01 * size
+    x_other[j] -= 0.01 * size
+    sut(L, np.nan, x_other), sut(u, np.nan, x_other)
+    require(np.array_equal(np.asarray(L_first, dtype=float), Lx) and np.array_equal(np.asarray(u_first, dtype=float), ux), "a result handed out earlier was overwritten by a later call at another point")
+    require(np.array_equal(np.asarray(sut(L, np.nan, x), dtype=float), Lx) and np.array_equal(np.asarray(sut(u, np.nan, x), dtype=float), ux), "the same point gives a different velocity or gradient after a call at another point")
     require(np.all(np.isfinite(Lx)) and np.all(np.isfinite(ux)), "non-finite velocity or gradient at an interior point")
     J = closed_form_jacobian(fs, x, i, j, amp, size)
     # natural magnitude of the gradient (the closed form may vanish identically, e.g. on the
